@@ -39,6 +39,9 @@ T = {
  'c18n': ('a copy derived by an expression rewrite rule (no statement edit reported), evaluated after its source in the same interpreter', 'C18 H1/A3 on muladd (needed rewrite-rule derivations and the derive run shape)'),
  'c19l': ('unroll_for STRICT, a refused loop before an accepted one, where an integer', 'C19 bad-where-accepted / rewrite-outside-named-site'),
  'c19m': ('a region ending right before a statement whose call inline expands (pure insertion exactly at the region end)', 'C19 forward-unrelated by rule (d): untouched, un-aimed statements are named exactly by their images'),
+ 'c17k': ('an IEEE/EFloat context obtained through with_params(rng=...) that keeps the format', 'C17 draw-count on the with_rng build route'),
+ 'c19n': ('an expression rule with one match nested inside a binding of another, where=None', 'C19 listed-site-not-rewritten (needed the root rw_c and the expression-granular where=None check)'),
+ 'c19o': ('split PEEL on a loop of static length below the factor, cursor into the loop body', 'C19 edit-log-miscounts'),
 }
 base = os.path.join(os.path.dirname(os.path.dirname(os.path.abspath(__file__))), 'seeded')
 for mid, (needs, caught) in T.items():
